@@ -102,7 +102,17 @@ def shift_to(spec, cx, cy):
     return spec
 
 
+def driver_extra(tier, seed, rundir):
+    """thorough tier: the repository's own test-suite as an additional, organically shaped workload for the same monitor."""
+    if tier != 'thorough':
+        return None
+    from vmon import suite
+    return suite.run_suite_lane(ID, 'to_mask')
+
+
 def run_case(case, obs):
+    if case['lane'].startswith('suite:'):
+        return monitors.replay_suite_case(case, obs)
     if case['lane'] == 'unsupported':
         return run_unsupported(case, obs)
     region = S.build(case['region'])
